@@ -5,17 +5,22 @@
 (* more than n-2: the engine clamps) and every prime the diagram RipsPersistence *)
 (* assigns to it is printed as a CASE line; the theorems of RipsPersistence are  *)
 (* invariants (on every matrix whose hash is 0 mod ThEvery / ThDefEvery).        *)
-(* The matrices are split over NSHARDS processes (environment SHARD, NSHARDS).   *)
+(* The matrices are split over NSHARDS processes (environment SHARD, NSHARDS);   *)
+(* with SampleEvery > 1 only a seeded (environment SEEDV) fraction of the family  *)
+(* is taken.                                                                      *)
 EXTENDS RipsPersistence, Json, IOUtils
 
-CONSTANTS Ns, Vals, Primes, ThEvery, ThDefEvery, ThDefMaxN
+CONSTANTS Ns, Vals, Primes, SampleEvery, ThEvery, ThDefEvery, ThDefMaxN
 VARIABLE c
 
 SH == atoi(IOEnv.SHARD)
 NS == atoi(IOEnv.NSHARDS)
 
 Hash(n, W) == FoldSet(LAMBDA e, acc : (acc * 7 + W[e] * (1 + Min(e) + 5 * Max(e))) % 1000003, n, DOMAIN W)
-Mine(n, W) == Hash(n, W) % NS = SH
+SD == atoi(IOEnv.SEEDV)
+Mine(n, W) == LET h == Hash(n, W) IN
+  /\ h % NS = SH
+  /\ SampleEvery = 1 \/ ((h \div NS) + SD) % SampleEvery = 0     \* seeded sample of the family (SEEDV)
 Cases == UNION {{[n |-> n, W |-> W] : W \in {X \in [Pairs(n) -> Vals] : Mine(n, X)}} : n \in Ns}
 
 Ts       == {0} \cup Vals \cup {NoT}
